@@ -2668,22 +2668,20 @@ void Validator::ValidatorImpl::checkUniqueResetOrders(const ModelPtr &model)
 
 void Validator::ValidatorImpl::addResetOrderMapItem(const VariablePtr &variable, int order, ResetOrderMap &resetOrderMap)
 {
-    auto currentVariable = variable;
-    bool existingVariableFound = resetOrderMap.count(currentVariable) > 0;
-    size_t i = 0;
+    // Look for a variable of the equivalent variable set (the variable itself,
+    // then the variables that are directly or indirectly equivalent to it) that
+    // is already in the map.
 
-    while ((i < variable->equivalentVariableCount()) && !existingVariableFound) {
-        currentVariable = variable->equivalentVariable(i);
-        existingVariableFound = resetOrderMap.count(currentVariable) > 0;
-        ++i;
+    for (const auto &equivalentVariable : equivalentVariables(variable)) {
+        if (resetOrderMap.count(equivalentVariable) > 0) {
+            resetOrderMap[equivalentVariable].emplace_back(order);
+
+            return;
+        }
     }
 
-    if (existingVariableFound) {
-        resetOrderMap[currentVariable].emplace_back(order);
-    } else {
-        std::vector<int> orders = {order};
-        resetOrderMap.emplace(variable, orders);
-    }
+    std::vector<int> orders = {order};
+    resetOrderMap.emplace(variable, orders);
 }
 
 void Validator::ValidatorImpl::traverseComponentTree(const ComponentPtr &component, ResetOrderMap &resetOrderMap)
